@@ -108,7 +108,7 @@ def normalize_real(op_json, real):
     op = op_json['op']
     if op == 'walk': return [e[:2] + ([e[2]] if e[1] == 'redirect' else []) for e in real['entries']]
     if op == 'specifiers': return sorted(real['entries'])
-    if op in ('prune_types', 'segment'):
+    if op in ('prune_types', 'segment', 'add_redirect'):
         from .ops import normalize_graph_dump
         out = {'graph': normalize_graph_dump(real['graph'])}
         out['then'] = [normalize_real(sub, r) for sub, r in zip(op_json.get('then', []), real.get('then', []))]
